@@ -1,4 +1,5 @@
 """C13 — config-driven single run == the explicit wind -> profiles -> source -> solver pipeline."""
+import inspect
 import os
 import tempfile
 
@@ -40,6 +41,8 @@ def gen_cfg(rng):
     hk = rng.random()
     if hk < 0.5:
         dom["halo"] = float(rng.uniform(5, 40))
+    elif hk < 0.65:
+        dom["halo"] = 0.0          # a legitimate setting: no zero padding at all
     lk = rng.choice(["default", "full", "levels", "empty"])
     if lk == "full":
         dom["full_output"] = True
@@ -74,7 +77,15 @@ class Recorder:
             def mk(n=n, f=f):
                 def w(*a, **k):
                     out = f(*a, **k)
-                    self.calls.setdefault(n, []).append((a, k, out))
+                    # the effective call: every parameter by name, defaults applied (an omitted keyword
+                    # and the same keyword passed with its default value are the same call)
+                    try:
+                        b = inspect.signature(f).bind(*a, **k)
+                        b.apply_defaults()
+                        kk = dict(b.arguments)
+                    except (TypeError, ValueError):
+                        kk = dict(k)
+                    self.calls.setdefault(n, []).append((a, kk, out))
                     return out
                 return w
             setattr(self.itf, n, mk())
@@ -141,7 +152,7 @@ def model_and_impl(raw, nstep, tw_i, mi, flux, cache_obj):
     (sa, sk, sout) = c["steady_state_transport_solver"][0]
     if c.get("ideal_source"):
         (ia, ik, iout) = c["ideal_source"][0]
-        src = "ideal %d %d %d %d %s %d" % (ident(ia[0][0]), ident(ia[0][1]), ident(ia[1][0]), ident(ia[1][1]),
+        src = "ideal %d %d %d %d %s %d" % (ident(ik["nxy"][0]), ident(ik["nxy"][1]), ident(ik["domain"][0]), ident(ik["domain"][1]),
                                            "N" if ik.get("src_loc") is None else str(ident(tuple(ik["src_loc"]))), ident(ik["shape"]))
         src_ok = sk["srf_flx"] is iout
     else:
@@ -152,7 +163,7 @@ def model_and_impl(raw, nstep, tw_i, mi, flux, cache_obj):
     step = res["params"]
     ts = res["timestamp"]
     impl = ("ok wind %s %s prof %d %d %s %s %s %d src %s %s sol %d %d %s %d %d %d %s %s %s %d %s lab %d %d %d %s %s %s %s %s %s" % (
-        so(wa[0], "met"), so(wa[1], "met"), pk["n"], ident(pk["meas_height"]), so(pk.get("ustar"), "met"), so(pk.get("z0"), "met"),
+        so(wk["u_rot"], "met"), so(wk["wind_dir"], "met"), pk["n"], ident(pk["meas_height"]), so(pk.get("ustar"), "met"), so(pk.get("z0"), "met"),
         so(pk["mol"], "met"), ident(pk["closure"]), src, "N" if flux is None else str(ident(("flux", id(flux)))),
         ident(sk["domain"][0]), ident(sk["domain"][1]), lvs, ident(tuple(sk["modes"])), ident(sk["meas_pt"][0]), ident(sk["meas_pt"][1]),
         str(bool(sk["footprint"])).lower(), str(bool(sk["analytic"])).lower(), "N" if sk["halo"] is None else str(ident(sk["halo"])),
